@@ -1753,8 +1753,8 @@ fn main() {
         only: args.only.is_some(),
     };
     out.nontrivial_rule = format!(
-        "one case = one concurrent run of the real ShardedActorState on a {}-worker (20-40% of cases: 1-worker) tokio runtime: 2..{} client tasks, 1-4 rounds separated by barriers, <= 14 commands per round over 1-3 shared keys (string / list / set / hash; names plain, hash-tag shapes, multi-byte UTF-8, 7/8/9/16/17 bytes), shard counts {}, entry points execute (GET, SET [NX|XX] [GET], SETNX, GETSET, GETDEL, INCR/DECR/INCRBY/DECRBY, APPEND, SETRANGE, DEL, EXISTS, LPUSH/RPUSH/LPOP/RPOP/LRANGE, SADD/SREM/SMEMBERS, HSET/HDEL/HGETALL{}) / fast_* / pooled_fast_* / fast_batch_*_pipeline; mixed path classes on > 1 shard: {}. Classes: ordinary mix; FIRST-WRITER RACE (~{}% of cases: in a wave all clients release the same conditional write - SETNX, SET NX [GET], GETSET, INCR, LPUSH, SADD of one member, HSET of one field - on key 0 at the same instant, interleaved with waves in which one client DELs / GETDELs the key while the others race again); CANCELLATION (~{}%: saboteur tasks abandon pooled / fast / batch / generic / EVAL requests mid-flight - poll once + drop, timeout(0), JoinHandle::abort; an abandoned write is a PENDING operation of its window, the search tries every subset; then 72-96 exactly-checked pooled requests cycle the 64-slot response pool); TTL (~{}% of cases: string keys with deadlines on a harness-driven clock that moves only between waves, when nothing is in flight - the move is an operation of every key's window; SET PX/EX/KEEPTTL, EXPIRE/PEXPIRE [NX|XX|GT|LT], PERSIST, TTL/PTTL, GETEX, plain SET of three possible values through generic / fast / pooled / batch paths, reads through every read path before and after each deadline, a directed 'SET v PX 150 | SET v by every write path | +200 ms | GET by every read path' round in 40% of them; the barrier reads GET and PTTL); SLOW SHARD (every {}th case, run in parallel threads: a Lua busy loop calibrated to 0.3 / 1.6 / 3.2{} s occupies the shard of key 0 - alone, or followed by an INCR / GET / LPUSH, sometimes a second long script - while 2-4 other clients queue non-idempotent generic commands and INCR scripts on that key; a command applied twice, or answered with an error the code does not document, makes the window non-linearizable). Per round and key one window (incl. the barrier read of the whole value) judged by Coq lin_check and by the harness's own search; non-trivial = at least one window in which two operations on the same key overlap in time; distinct by the printed histories. Thread scheduling is NOT derived from the seed: the scripts of case i are (seed,i)-determined, the interleavings are explored, not replayable bit for bit; a failing window is stored in full in the replay file and re-judged by --replay",
-        workers, cfg.max_clients, if cfg.wide { "{1,2,4,16}" } else { "{1,4}" }, if cfg.eval { ", EVAL scripts GET+SET / INCR+GET / INCR" } else { "" },
+        "one case = one concurrent run of the real ShardedActorState on a {}-worker (20-40% of cases: 1-worker) tokio runtime: 2..{} client tasks, 1-4 rounds separated by barriers, <= 14 commands per round over 1-3 shared keys (string / list / set / hash; names plain, hash-tag shapes, multi-byte UTF-8, 7/8/9/16/17 bytes), shard counts {}, entry points execute (GET, SET [NX|XX] [GET], SETNX, GETSET, GETDEL, INCR/DECR/INCRBY/DECRBY, APPEND, SETRANGE, DEL, EXISTS, LPUSH/RPUSH/LPOP/RPOP/LRANGE, SADD/SREM/SMEMBERS, HSET/HDEL/HGETALL, MSET/MGET, multi-key DEL/EXISTS fan-out, FLUSHDB/FLUSHALL{}) / fast_* / pooled_fast_* / fast_batch_*_pipeline (batches padded with filler keys to 15..128 entries) / evict_expired_all_shards; response pool (capacity, prewarm) default or one of (1,0) .. (65,64); values of 0 B, 15..8193 B around powers of two, 64 KiB, 1 MiB in thorough; mixed path classes on > 1 shard: {}. Classes: ordinary mix; FIRST-WRITER RACE (~{}% of cases: in a wave all clients release the same conditional write - SETNX, SET NX [GET], GETSET, INCR, LPUSH, SADD of one member, HSET of one field - on key 0 at the same instant, interleaved with waves in which one client DELs / GETDELs the key while the others race again); CANCELLATION (~{}%: saboteur tasks abandon pooled / fast / batch / generic / EVAL requests mid-flight - poll once + drop, timeout(0), JoinHandle::abort; an abandoned write is a PENDING operation of its window, the search tries every subset; then 72-96 exactly-checked pooled requests cycle the 64-slot response pool); TTL (~{}% of cases: string keys with deadlines on a harness-driven clock that moves only between waves, when nothing is in flight - the move is an operation of every key's window; SET PX/EX/KEEPTTL, EXPIRE/PEXPIRE [NX|XX|GT|LT], PERSIST, TTL/PTTL, GETEX, plain SET of three possible values through generic / fast / pooled / batch paths, reads through every read path before and after each deadline, a directed 'SET v PX 150 | SET v by every write path | +200 ms | GET by every read path' round in 40% of them; the barrier reads GET and PTTL); SLOW SHARD (every {}th case, run in parallel threads: a Lua busy loop calibrated to 0.3 / 1.6 / 3.2{} s occupies the shard of key 0 - alone, or followed by an INCR / GET / LPUSH, sometimes a second long script - while 2-4 other clients queue non-idempotent generic commands and INCR scripts on that key; a command applied twice, or answered with an error the code does not document, makes the window non-linearizable). Per round and key one window (incl. the barrier read of the whole value) judged by Coq lin_check and by the harness's own search; non-trivial = at least one window in which two operations on the same key overlap in time; distinct by the printed histories. Thread scheduling is NOT derived from the seed: the scripts of case i are (seed,i)-determined, the interleavings are explored, not replayable bit for bit; a failing window is stored in full in the replay file and re-judged by --replay",
+        workers, cfg.max_clients, if cfg.wide { "{1,2,4,16}" } else { "{1,4}" }, if cfg.eval { ", EVAL and SCRIPT LOAD + EVALSHA of scripts GET+SET / INCR+GET / INCR" } else { "" },
         if cfg.mixed_multishard { "enabled" } else { "disabled (one class per case)" }, cfg.race_pct, cfg.sab_pct, cfg.ttl_pct, cfg.slow_every, if cfg.slow_long { " / 6" } else { "" });
     BIG.store(args.get("big", 65536), Ordering::Relaxed);
     let rt = tokio::runtime::Builder::new_multi_thread().worker_threads(workers).enable_all().build().unwrap();
